@@ -535,6 +535,75 @@ def check_raw_interpolations(ctx, rep):
 
 
 # ---------------------------------------------------------------------- T-LAYOUT: header line of the Zinc grid writer
+def _tag_helpers(prog):
+    """private free functions of the Zinc encoder (not trait methods) that hand one of their parameters to write_dict_tags:
+    {body id: parameter index (1-based local) whose dict is written}"""
+    out = {}
+    for b in prog.bodies.values():
+        if not b.file.endswith("encoding/zinc/encode.rs") or b.rec["kind"] == "Closure" or (b.rec.get("impl") or {}).get("trait"):
+            continue
+        if b.rec.get("name") == "write_dict_tags":
+            continue
+        for bi, t in b.calls():
+            if strip_generics(mir.callee_name(t) or "").endswith("encode::write_dict_tags") and len(t["args"]) > 1:
+                m = re.match(r"^_(\d+)(\*|\.| as )", repr(G.describe(b, t["args"][1])) + ".")
+                if m and int(m.group(1)) <= b.arg_count:
+                    out[b.id] = int(m.group(1))
+    return out
+
+
+def meta_tag_sites(prog, w):
+    """blocks of writer body `w` that write the tags of a `.meta` dict: a direct write_dict_tags(.., X.meta, ..) or a call of a
+    private helper that passes that argument on to write_dict_tags"""
+    helpers = _tag_helpers(prog)
+    out = []
+    for bi, t in w.calls():
+        c = callee_of(t)
+        nm = strip_generics(mir.callee_name(t) or "")
+        if nm.endswith("encode::write_dict_tags"):
+            if len(t["args"]) > 1 and ".meta" in repr(G.describe(w, t["args"][1])):
+                out.append(bi)
+        elif c is not None:
+            for hid, pidx in helpers.items():
+                if strip_generics(hid) == nm and len(t["args"]) >= pidx and ".meta" in repr(G.describe(w, t["args"][pidx - 1])):
+                    out.append(bi)
+    return out
+
+
+def check_space_before_meta_tags(ctx, rep):
+    """wherever the tags of a meta dict are written with ' ' as their separator (grid meta after the version, column meta after
+    the name), the write just before them on every path is a single space - in whichever function the call sits"""
+    from vlib.dataflow import must_pass
+
+    prog = ctx.prog
+    n = 0
+    for b in prog.bodies.values():
+        if not b.file.endswith("encoding/zinc/encode.rs"):
+            continue
+        adt = (b.rec.get("impl") or {}).get("self_adt") or ""
+        for bi, t in b.calls():
+            if not strip_generics(mir.callee_name(t) or "").endswith("encode::write_dict_tags") or len(t["args"]) < 3:
+                continue
+            sep = G.describe(b, t["args"][2])
+            if not (sep.kind == "conststr" and sep.v == " ") or adt.endswith("dict::Dict"):
+                continue
+            n += 1
+            writes = [wb for wb, wt in b.calls() if wb != bi and (strip_generics(mir.callee_name(wt) or "").startswith("std::io::Write::") or strip_generics(mir.callee_name(wt) or "").endswith("encode::write_str"))]
+            spaces = [wb for wb in writes if G.describe(b, b.term(wb)["args"][1]).kind == "conststr" and G.describe(b, b.term(wb)["args"][1]).v == " "]
+            others = [wb for wb in writes if wb not in spaces and bi in b.reachable(wb)]
+            ok, path = must_pass(b, [0], bi, spaces) if 0 not in spaces else (True, None)
+            for wb in others:
+                o2, p2 = must_pass(b, [wb], bi, spaces)
+                ok = ok and o2
+            key = "space-before-meta-tags:%s" % (adt.split("::")[-1] or b.rec.get("name"))
+            if ok:
+                rep.ok("T-LAYOUT", key, b.where(bi), "on every path the write just before the meta tags is a space")
+            else:
+                rep.bad("T-LAYOUT", "T-LAYOUT:column:space-between-name-and-meta" if "Column" in key or b.rec.get("name") else "T-LAYOUT:" + key, b.where(bi), "meta tags can follow what precedes them without a separating space: the reader sees one long token / rejects the line")
+    return n
+
+
+
 def check_grid_layout(ctx, rep):
     """the grid writer's header is one line: ver:"..." [space + meta tags] newline, then the column line.
     (The reader requires the meta on the version line and a newline before the columns.)"""
@@ -565,11 +634,10 @@ def check_grid_layout(ctx, rep):
                     nls.append(bi)
                 if v.v.startswith("empty"):
                     cols.append(bi)
-        elif nm.endswith("encode::write_dict_tags"):
-            if ".meta" in repr(G.describe(w, t["args"][1])):
-                meta = bi
         elif nm.endswith("Column as haystack::encoding::zinc::encode::ToZinc>::to_zinc"):
             cols.append(bi)
+    ms = meta_tag_sites(prog, w)
+    meta = ms[0] if len(ms) == 1 else None
     if ver is None or meta is None or not cols:
         rep.gap("Grid writer layout", w.where(), "ver=%s meta=%s columns=%s" % (ver, meta, cols))
         return 0
@@ -766,8 +834,44 @@ def check_separators(ctx, rep):
                             ok = True
                 elif g.op in ("Le", "Lt") and g.b is not None and "len" in repr(g.b):
                     why = "guard is %r, expected index < len - 1" % g
+            form = "after each element but the last (index < len - 1)"
+            # where the separator sits in the iteration: the element writes are the other calls that receive the writer
+            hdr = loops[0].block  # innermost enumerate loop around the separator
+            wr = repr(G.describe(b, t["args"][0]))
+            elems = [eb for eb, et in b.calls() if eb != bi and et["args"] and any(repr(G.describe(b, a)) == wr for a in et["args"]) and hdr in b.reachable(eb) and eb in b.reachable(hdr)
+                     and not strip_generics(mir.callee_name(et) or "").endswith("Try>::branch")]
+
+            def reach_avoiding(src, avoid):
+                seen, st = {src}, [src]
+                while st:
+                    x = st.pop()
+                    for y in b.succ(x):
+                        if y != avoid and y not in seen:
+                            seen.add(y)
+                            st.append(y)
+                return seen
+
             if ok:
-                rep.ok("T-SEP", key, b.where(bi), "separator written only when index < len()-1 of the iterated collection")
+                # trailing form: no element write of the same iteration comes after the separator
+                after = reach_avoiding(bi, hdr)
+                if any(e in after for e in elems):
+                    ok = False
+                    why = "the separator is guarded like a trailing one (index < len - 1) but an element is written after it in the same iteration"
+            else:
+                # leading form: `index > 0` / `index != 0`, written before every element write of the iteration
+                for g in gs:
+                    idx = repr(g.a) if g.a is not None else ""
+                    lead = ((g.op in ("Gt", "Ne") and g.b is not None and g.b.kind == "const" and g.b.v == 0 and re.search(r"as Some\.0\.0$", idx))
+                            or (g.op == "Lt" and g.a is not None and g.a.kind == "const" and g.a.v == 0 and re.search(r"as Some\.0\.0$", repr(g.b))))
+                    if lead:
+                        before_ok = all(bi not in reach_avoiding(e, hdr) for e in elems) and bool(elems)
+                        if before_ok:
+                            ok = True
+                            form = "before each element but the first (index > 0)"
+                        else:
+                            why = "the separator is guarded like a leading one (index > 0) but an element is written before it in the same iteration"
+            if ok:
+                rep.ok("T-SEP", key, b.where(bi), "separator written %s of the iterated collection" % form)
             else:
                 rep.bad("T-SEP", "T-SEP:" + key, b.where(bi), "separator in %s is not written exactly between elements: %s" % (b.short.split("::")[-1], why))
     return n
@@ -809,35 +913,29 @@ def check_nesting_flag(ctx, rep):
 
 
 def check_column_layout(ctx, rep):
-    """a grid column is written as name [space meta-tags]: every path from the name to the meta tags writes the space"""
+    """a grid column is written as name [space meta-tags]: the name comes first, and wherever the meta tags are written (in the
+    Column writer or in a private helper it calls) the write just before them is a space"""
     prog = ctx.prog
-    from vlib.dataflow import must_pass
-
     w = find_writer(prog, "grid::Column")
     if w is None:
         rep.gap("Column writer", "-", "not found")
         return 0
-    name = meta = None
-    spaces = []
+    name = None
     for bi, t in w.calls():
         nm = strip_generics(mir.callee_name(t) or "")
         if nm.endswith("encode::write_str") and ".name" in repr(G.describe(w, t["args"][1])):
             name = bi
-        elif nm.endswith("encode::write_dict_tags"):
-            meta = bi
-        elif nm == "std::io::Write::write_all":
-            v = G.describe(w, t["args"][1])
-            if v.kind == "conststr" and v.v == " ":
-                spaces.append(bi)
-    if name is None or meta is None:
-        rep.gap("Column writer layout", w.where(), "name=%s meta=%s" % (name, meta))
+    ms = meta_tag_sites(prog, w)
+    if name is None or not ms:
+        rep.gap("Column writer layout", w.where(), "name=%s meta=%s" % (name, ms))
         return 0
-    ok, path = must_pass(w, [name], meta, spaces)
-    if ok:
-        rep.ok("T-LAYOUT", "column:space-between-name-and-meta", w.where(meta), "every path from the column name to its meta tags writes a space first")
+    if all(w.dominates(name, m) for m in ms):
+        rep.ok("T-LAYOUT", "column:name-before-meta", w.where(ms[0]), "the column name is written before its meta tags on every path")
     else:
-        rep.bad("T-LAYOUT", "T-LAYOUT:column:space-between-name-and-meta", w.where(meta), "column meta follows the column name without a separating space: the reader sees one long identifier / rejects the line")
-    return 1 + check_tag_separators(ctx, rep)
+        rep.bad("T-LAYOUT", "T-LAYOUT:column:name-before-meta", w.where(ms[0]), "column meta can be written without the column name before it")
+    nsp = check_space_before_meta_tags(ctx, rep)
+    rep.floor("space-separated meta tag lists (grid meta, column meta)", nsp, 1)
+    return 1 + nsp + check_tag_separators(ctx, rep)
 
 
 # separator between the tags of a tag list, by the construct that contains the list (Zinc grammar: meta tags of a grid and of a
@@ -848,6 +946,7 @@ TAG_SEPARATORS = {"grid::Column": (" ",), "grid::Grid": (" ",), "dict::Dict": ("
 def check_tag_separators(ctx, rep):
     prog = ctx.prog
     n = 0
+    contexts = set()
     for b in prog.bodies.values():
         if not b.file.endswith("encoding/zinc/encode.rs"):
             continue
@@ -858,8 +957,26 @@ def check_tag_separators(ctx, rep):
                 continue
             adt = (b.rec.get("impl") or {}).get("self_adt") or ""
             want = next((v for a, v in TAG_SEPARATORS.items() if adt.endswith(a)), None)
+            if want is None and not adt:
+                # a private helper: the contexts are those of its callers
+                ctxs = set()
+                for cb in prog.bodies.values():
+                    if cb.file.endswith("encoding/zinc/encode.rs"):
+                        for _cbi, ct in cb.calls():
+                            if strip_generics(mir.callee_name(ct) or "") == strip_generics(b.id):
+                                ctxs.add((cb.rec.get("impl") or {}).get("self_adt") or "")
+                wants = [next((v for a, v in TAG_SEPARATORS.items() if c.endswith(a)), None) for c in ctxs]
+                if wants and all(x is not None for x in wants):
+                    common = set(wants[0])
+                    for x in wants[1:]:
+                        common &= set(x)
+                    want = tuple(sorted(common))
+                    adt = "+".join(sorted(c.split("::")[-1] for c in ctxs))
+                    contexts |= {c.split("::")[-1] for c in ctxs}
             sep = G.describe(b, t["args"][2]) if len(t["args"]) > 2 else None
             n += 1
+            if "+" not in adt:
+                contexts.add(adt.split("::")[-1])
             key = "tag-separator:%s#%d" % (adt.split("::")[-1] or b.short, k)
             k += 1
             if want is None:
@@ -868,7 +985,7 @@ def check_tag_separators(ctx, rep):
                 rep.ok("T-SEP", key, b.where(bi), "tags of a %s are separated by %r" % (adt.split("::")[-1], sep.v))
             else:
                 rep.bad("T-SEP", "T-SEP:tag-separator:%s" % adt.split("::")[-1], b.where(bi), "the tags of a %s are separated by %s, the grammar has %s there (a ',' between column meta tags starts a new column for the reader)" % (adt.split("::")[-1], sep, " or ".join(repr(x) for x in want)))
-    rep.floor("write_dict_tags call sites", n, 3)
+    rep.floor("contexts in which a tag list is written (Dict, grid meta, column meta)", len(contexts), 3)
     return n
 
 
